@@ -138,6 +138,7 @@ Proof.
     destruct (N.eqb c 0); [discriminate|].
     destruct (s_picked s c victim); [|inversion H; reflexivity].
     destruct fail; inversion H; reflexivity.
+  - discriminate.
 Qed.
 
 Lemma c16_step_model : forall K d s o ch d1 x s1 r data prev cur,
@@ -391,7 +392,7 @@ Proof.
   pose proof (inv_wf _ _ I) as W. pose proof (wf_nf _ _ W) as Hnf.
   pose proof (inv_names _ _ I) as N.
   pose proof (step_sim K d s o ch d1 x s1 r data HK I R Hstep Hspec) as (I1 & _).
-  destruct o as [off wdata|off len|name user|name|src dst|name|name|name|pre|pre|pb|nb| |cp|off len fi|cp victim fail];
+  destruct o as [off wdata|off len|name user|name|src dst|name|name|name|pre|pre|pb|nb| |cp|off len fi|cp victim fail|off len];
     try reflexivity; cbn [c11_step step spec_step] in *.
   - (* PrepRemove *)
     rewrite (protected_name_spec K d prev name OP N Hnf).
@@ -642,3 +643,46 @@ Example fault_demo :
     [(RErr, [1; 2; 3; 4; 5; 0]); (ROk, [1; 2; 3; 4; 5; 0]); (ROk, [1; 2; 3; 5; 0]); (ROk, [1; 2; 3; 5; 0])]%N /\
   o_data (nth 21 tr (obs0 (mkcfg 1 8 false false))) = [1; 1; 2; 1; 3; 4; 5; 6]%N.
 Proof. vm_compute. repeat split; reflexivity. Qed.
+
+(** ** C06: a discard (diffDisk.Unmap punches every chain file above SnapIndx) leaves the chain, the attributes
+    and every retained user-created snapshot alone: their files are at or below SnapIndx ([prot]).  What the
+    live volume reads afterwards is not promised ([spec_step] does not speak about [Unmap]: the location table
+    may point into a punched file), so [block_refines_spec] claims nothing from an unmap onwards; the step-wise
+    oracle [c06u_step] is what the correspondence run evaluates around every unmap. *)
+Theorem unmap_keeps_user_snapshots : forall K d off len, inv K d ->
+  let d1 := unmap K d off len in
+  nf d1 = nf d /\ nm d1 = nm d /\ usr d1 = usr d /\ rmd d1 = rmd d /\ nblk d1 = nblk d /\ loc d1 = loc d /\
+  (forall i b, i <= snapix d -> top (fl d1) i b = top (fl d) i b) /\
+  (forall i, 1 <= i < nf d -> usr d i = true -> rmd d i = false -> image K d1 i = image K d i).
+Proof.
+  intros K d off len I. cbn zeta. repeat (split; [reflexivity|]).
+  assert (Htop : forall i b, i <= snapix d -> top (fl (unmap K d off len)) i b = top (fl d) i b).
+  { intros i b Hi. apply top_ext. intros j Hj. unfold unmap. cbn [fl set_fl].
+    destruct (Nat.ltb_spec (snapix d) j); [lia|]. reflexivity. }
+  split; [exact Htop|]. intros i Hi Hu Hr. apply image_ext; [reflexivity|]. intros b. apply Htop.
+  destruct (inv_prot _ _ I i Hi Hu Hr) as (Hs & _). exact Hs.
+Qed.
+
+(** the oracle clause evaluated around every unmap holds for the model's step from every state that
+    satisfies the invariant (every state reached through operations the specification speaks about) *)
+Theorem c06u_step_model : forall K d off len prev cur, inv K d ->
+  Obs K d prev -> Obs K (unmap K d off len) cur -> c06u_step prev (Unmap off len) cur = true.
+Proof.
+  intros K d off len prev cur I OP OC.
+  pose proof (inv_names _ _ I) as N. pose proof (wf_nf _ _ (inv_wf _ _ I)) as Hnf.
+  destruct (unmap_keeps_user_snapshots K d off len I) as (_ & _ & _ & _ & _ & _ & _ & Him).
+  cbn zeta in Him. set (d1 := unmap K d off len) in *.
+  assert (N1 : names_ok d1) by exact N.
+  cbn [c06u_step].
+  rewrite (ob_chain _ _ _ OC), (ob_chain _ _ _ OP), (ob_attr _ _ _ OC), (ob_attr _ _ _ OP),
+          (ob_snaps _ _ _ OC), (ob_snaps _ _ _ OP).
+  apply andb_true_iff. split; [apply andb_true_iff; split; [apply andb_true_iff; split|]|].
+  - apply listN_eqb_refl.
+  - apply list_eqb_refl. apply attr_eqb_refl.
+  - apply (users_kept_seq K d d1 prev 0%N (nf d1) 1 (nf d1 - 1) OP N ltac:(lia)).
+    intros i Hi Hu Hr _. exists i. change (nf d1) with (nf d) in Hi.
+    repeat split; try lia; auto. symmetry. apply Him; [lia|exact Hu|exact Hr].
+  - apply (users_kept_seq K d1 d cur 0%N (nf d) 1 (nf d - 1) OC N1 ltac:(lia)).
+    intros i Hi Hu Hr _. exists i. change (nf d1) with (nf d).
+    repeat split; try lia; auto. apply Him; [lia|exact Hu|exact Hr].
+Qed.
